@@ -160,29 +160,10 @@ fn nopanic_dkg_round2_secret_package() {
     let _ = de_any!(dkg::round2::SecretPackage<Toy251>, 6);
 }
 
-// BTreeMap-carrying types: the map keys come from the input, i.e. they are SYMBOLIC — the case the design
-// (§2.5) rules out for Kani beyond toy sizes.  The map length byte is therefore restricted to <= 1 entry
-// (with one entry no key comparison ever happens); everything else is symbolic.
-// @harness name=nopanic_public_key_package_le1 props=C14 kind=bounded bound="N = 10, map length byte <= 1 (valid encodings with 1 entry: 9..12 bytes)" tier=thorough backs="no panic in PublicKeyPackage::deserialize on arbitrary bytes with at most one map entry" expect=pass
-#[kani::proof]
-#[kani::unwind(12)]
-fn nopanic_public_key_package_le1() {
-    let buf: [u8; 10] = kani::any();
-    kani::assume(buf[5] <= 1);
-    let len: usize = kani::any();
-    kani::assume(len <= 10);
-    let r = PublicKeyPackage::<Toy251>::deserialize(&buf[..len]);
-    core::mem::forget(r);
-}
-
-// @harness name=nopanic_signing_package_le1 props=C14 kind=bounded bound="N = 16, map length byte <= 1 (a valid encoding with 1 entry and a 1-byte message has 16 bytes)" tier=thorough backs="no panic in SigningPackage::deserialize on arbitrary bytes with at most one map entry" expect=pass
-#[kani::proof]
-#[kani::unwind(18)]
-fn nopanic_signing_package_le1() {
-    let buf: [u8; 16] = kani::any();
-    kani::assume(buf[5] <= 1);
-    let len: usize = kani::any();
-    kani::assume(len <= 16);
-    let r = SigningPackage::<Toy251>::deserialize(&buf[..len]);
-    core::mem::forget(r);
-}
+// BTreeMap-carrying types (PublicKeyPackage, SigningPackage): NO no-panic harness is kept.  Fully symbolic input
+// means symbolic map keys, the case the design (§2.5) rules out for Kani.  Tried and dropped (see README):
+//   * symbolic map-length byte <= 1, everything else symbolic (N = 10 / 16): no result in 25 min;
+//   * concrete map length 0 / 1, everything else symbolic (N = 10..17): CBMC out of memory after 12-18 min;
+//   * well-formed one-entry frame with arbitrary value bytes, arbitrarily truncated: CBMC out of memory.
+// What exists for these two decoders: codec_dec_* (every well-formed encoding within the bound decodes to the
+// value) and codec_pkp_threshold_tail_lenient (arbitrary bytes after the verifying key never fail).
